@@ -13,6 +13,7 @@ package c03
 import (
 	"fmt"
 	"os"
+	"slices"
 	"sort"
 	"strings"
 	"sync"
@@ -70,6 +71,7 @@ type famSpec struct {
 	Pruned bool // additionally run the pruned node variants
 	Tail   int  // empty blocks appended after the history (so that history roots fall out of the retention window)
 	Depth  int  // history depth (0 = the tier's)
+	Focus  bool // shape plans: the exhaustive O1 pass enumerates the prefixes / starts of UA's and UB's keys only
 }
 
 func families(thorough bool) []famSpec {
@@ -105,6 +107,7 @@ type caseRec struct {
 	History []string `json:"history"`
 	Variant string   `json:"variant"`
 	Height  uint32   `json:"height"`
+	Focus   bool     `json:"focus,omitempty"`
 	Oracle  string   `json:"oracle"`
 	Class   string   `json:"class"`
 	Call    string   `json:"call"`
@@ -141,6 +144,7 @@ type run struct {
 	ids      []int32
 	snaps    []*snap
 	universe []string
+	deepKeys []string              // keys whose prefixes / suffixes the exhaustive O1 pass enumerates
 	proofs   []map[string][][]byte // per snap: key -> proof
 	reported map[string]bool
 	nfail    map[string]int
@@ -167,7 +171,7 @@ func (c *run) fail(oracle, class string, s *snap, call, got, want string) {
 	if len(want) > 600 {
 		want = want[:600] + "..."
 	}
-	c.viol = append(c.viol, &caseRec{Family: c.fam.Name, Pad: c.fam.Pad, History: c.names, Variant: c.v.Name, Height: s.H, Oracle: oracle, Class: class, Call: call, Got: got, Want: want})
+	c.viol = append(c.viol, &caseRec{Family: c.fam.Name, Pad: c.fam.Pad, History: c.names, Variant: c.v.Name, Focus: c.fam.Focus, Height: s.H, Oracle: oracle, Class: class, Call: call, Got: got, Want: want})
 }
 
 func (r *caseRec) key() string {
@@ -320,6 +324,16 @@ func (c *run) evaluate() {
 		}
 	}
 	sort.Strings(c.universe)
+	c.deepKeys = c.universe
+	if c.fam.Focus {
+		// ids of the U instances: 1..3 (+ the unused 9 of the probes)
+		c.deepKeys = nil
+		for _, k := range c.universe {
+			if len(k) < 4 || (k[1] == 0 && k[2] == 0 && k[3] == 0) {
+				c.deepKeys = append(c.deepKeys, k)
+			}
+		}
+	}
 
 	from := c.retainedFrom()
 	c.proofs = make([]map[string][][]byte, len(c.snaps))
@@ -345,7 +359,7 @@ func (c *run) evaluate() {
 		c.historic(s, retained)
 		if retained && !c.v.GC && !c.v.Latest {
 			dg := digest(s)
-			key := c.fam.Name + "/" + s.Root.StringLE()
+			key := fmt.Sprintf("%s/%v/%s", c.fam.Name, c.fam.Focus, s.Root.StringLE())
 			prev, seen := cx.deepSeen.LoadOrStore(key, dg)
 			if seen && prev.(string) != dg {
 				c.fail("same-root-different-storage", "-", s, "root "+s.Root.StringLE(), dg, prev.(string))
@@ -528,7 +542,7 @@ func (c *run) light(s *snap, retained bool) {
 func (c *run) deep(s *snap) {
 	seen := map[string]struct{}{}
 	mode := mpt.ModeAll
-	for _, k := range c.universe {
+	for _, k := range c.deepKeys {
 		for l := 0; l <= len(k); l++ {
 			p := k[:l]
 			if _, ok := seen[p]; ok {
@@ -539,12 +553,12 @@ func (c *run) deep(s *snap) {
 				return
 			}
 			prefix := []byte(p)
-			lo := sort.SearchStrings(c.universe, p)
+			lo := sort.SearchStrings(c.deepKeys, p)
 			var starts [][]byte
 			starts = append(starts, nil, []byte{})
-			for i := lo; i < len(c.universe) && strings.HasPrefix(c.universe[i], p); i++ {
-				if len(c.universe[i]) > l {
-					starts = append(starts, []byte(c.universe[i][l:]))
+			for i := lo; i < len(c.deepKeys) && strings.HasPrefix(c.deepKeys[i], p); i++ {
+				if len(c.deepKeys[i]) > l {
+					starts = append(starts, []byte(c.deepKeys[i][l:]))
 				}
 			}
 			for _, st := range starts {
@@ -793,16 +807,25 @@ func TestCheck(t *testing.T) {
 		replay(cx)
 		return
 	}
-	// plans: quick = the quick alphabet at depth 2; thorough = A: the full
-	// alphabet at depth 2 and B: the quick alphabet at depth 3 (multi: A only)
+	// plans: quick = A: the quick alphabet at depth 2, S: the quick shape
+	// alphabet (one storage operation per block) at depth 2 on family single;
+	// thorough = A: the full alphabet at depth 2, B: the quick alphabet at depth
+	// 3 (multi: A only), S: the chain shapes at depth 3 on single and all shapes
+	// at depth 2 on the other single families
 	type plan struct {
 		name  string
 		names []string
 		depth int
+		focus bool
+		fams  string // "" = all, else space-separated family names
 	}
-	plans := []plan{{"A", tplNames(r.Thorough()), 2}}
+	plans := []plan{{name: "A", names: tplNames(r.Thorough()), depth: 2}}
 	if r.Thorough() {
-		plans = append(plans, plan{"B", tplNames(false), 3})
+		plans = append(plans, plan{name: "B", names: tplNames(false), depth: 3},
+			plan{name: "S3", names: shapeNames("chain"), depth: 3, focus: true, fams: "single"},
+			plan{name: "S2", names: shapeNames("all"), depth: 2, focus: true, fams: "single-srih single-mtb2"})
+	} else {
+		plans = append(plans, plan{name: "S", names: shapeNames("quick"), depth: 2, focus: true, fams: "single"})
 	}
 	fams := families(r.Thorough())
 	var perFam [][]job
@@ -813,6 +836,11 @@ func TestCheck(t *testing.T) {
 			if f.Depth != 0 && pl.depth > f.Depth {
 				continue
 			}
+			if pl.fams != "" && !slices.Contains(strings.Fields(pl.fams), f.Name) {
+				continue
+			}
+			f := f
+			f.Focus = pl.focus
 			sc, err := chainx.NewScenario(f.Family, f.Pad, tplByName(pl.names...))
 			if err != nil {
 				fmt.Println("CHECK-ERROR: cannot build the preamble of", f.Name, err)
@@ -870,7 +898,7 @@ func TestCheck(t *testing.T) {
 	})
 	var planDesc []string
 	for _, pl := range plans {
-		planDesc = append(planDesc, fmt.Sprintf("%s: %d templates, depth %d", pl.name, len(pl.names), pl.depth))
+		planDesc = append(planDesc, fmt.Sprintf("%s: %d templates, depth %d, families %q: %s", pl.name, len(pl.names), pl.depth, pl.fams, strings.Join(pl.names, " ")))
 	}
 	var famNames []string
 	for _, f := range fams {
@@ -934,6 +962,7 @@ func replay(cx *ctx) {
 		os.Exit(3)
 	}
 	fam.Pad = c.Pad
+	fam.Focus = c.Focus
 	tpls := tplByName(c.History...)
 	h := make([]int, len(tpls))
 	for i := range h {
